@@ -325,6 +325,7 @@ class ImplTrace:
 
     def __init__(self, sc, log, smap):
         self.log = log
+        self.smap = smap
         n = len(sc.steps)
         self.sends = [[] for _ in range(n)]      # (conn, ok, kind, payload)  kind: 'json' | 'http' | 'wsctl' | 'rawbad'
         self.closed = [[] for _ in range(n)]
@@ -431,6 +432,9 @@ def model_script(sc, tr):
             for t in tr.expired[si]:
                 lines.append("timer %d %s" % (t, sends if len(tr.expired[si]) == 1 else "-"))
                 opmap.append(si)
+        elif k == "quiesce":
+            lines.append("dump")
+            opmap.append(si)
     return lines, opmap
 
 
@@ -463,10 +467,14 @@ class ModelTrace:
         self.sends = [[] for _ in range(n)]
         self.closed = [[] for _ in range(n)]
         self.timers = [[] for _ in range(n)]
+        self.images = {}
         for j, obs in enumerate(ops):
             if j >= len(opmap):
                 break
             si = opmap[j]
+            if sc.steps[si][0] == "quiesce":
+                self.images[si] = model_image(obs)
+                continue
             for ln in obs:
                 w = ln.split(" ")
                 if w[0] == "send":
@@ -478,6 +486,85 @@ class ModelTrace:
                     self.timers[si].append(("arm", int(w[1]), int(w[2])))
                 elif w[0] == "tdestroy":
                     self.timers[si].append(("destroy", int(w[1])))
+
+
+def jd_value(tok):
+    """a ';'-joined token list of the driver's dump -> canonical value"""
+    if tok == "~":
+        return None
+    return parse_tokens(tok.split(";"))[0]
+
+
+def model_image(lines):
+    """state image from the driver's dump lines"""
+    peers, elems = [], {}
+    for ln in lines:
+        w = ln.split(" ")
+        if w[0] == "peer":
+            d = dict(x.split("=", 1) for x in w[2:])
+            peers.append({"conn": int(w[1]), "name": d["name"], "user": d["user"], "local": d["local"], "groups": d["groups"],
+                          "elements": [x for x in d["elements"].split(",") if x != ""] if d["elements"] != "" else [],
+                          "fetches": [("J", jd_value(x)) for x in d["fetches"].split("|")] if d["fetches"] else [],
+                          "routes": sorted(x for x in d["routes"].split(",") if x)})
+        elif w[0] == "elem":
+            d = dict(x.split("=", 1) for x in w[2:])
+            slots = []
+            if d["fetchers"]:
+                for x in d["fetchers"].split("|"):
+                    i, pc, fid = x.split(":", 2)
+                    slots.append((int(i), int(pc), ("J", jd_value(fid))))
+            elems[w[1]] = {"owner": int(d["owner"]), "value": ("J", jd_value(d["value"])) if d["value"] != "~" else None,
+                           "fetchOnly": d["fetchOnly"], "timeout": int(d["timeout"]), "groups": d["groups"],
+                           "tablesize": int(d["tablesize"]), "fetchers": slots}
+    return {"peers": peers, "elems": elems}
+
+
+def impl_image(snap, addr2conn):
+    peers, elems = [], {}
+
+    def jv(hx):
+        return ("J", canon_text(C.unhex(hx)))
+    for p in snap["peerlist"]:
+        peers.append({"conn": addr2conn.get(p["addr"], -1), "name": p["name"], "user": p["user"], "local": p["local"], "groups": p["groups"],
+                      "elements": [] if p["elements"] == "~" else p["elements"].split(","),
+                      "fetches": [] if p["fetches"] == "~" else [jv(x) for x in p["fetches"].split(",")],
+                      "routes": [] if p["routes"] == "~" else sorted(x.split(":", 1)[1] for x in p["routes"].split(","))})
+    for e in snap["elems"]:
+        slots = []
+        if e["fetchers"] != "~":
+            for x in e["fetchers"].split(","):
+                i, addr, fid = x.split(":", 2)
+                slots.append((int(i), addr2conn.get(addr, -1), jv(fid)))
+        elems[C.hexs(e["path"])] = {"owner": addr2conn.get(e["owner"], -1), "value": jv(e["value"]) if e["value"] != "~" else None,
+                                    "fetchOnly": "1" if int(e["flags"]) & 1 else "0", "timeout": int(e["timeout"]), "groups": e["groups"],
+                                    "tablesize": int(e["tablesize"]), "fetchers": slots}
+    return {"peers": peers, "elems": elems}
+
+
+def compare_images(sc, itr, mtr):
+    dis = []
+    addr2conn = {}
+    snaps = {}
+    for sn in itr.log.snaps:
+        if 0 <= sn["step"] < len(itr.smap):
+            snaps[itr.smap[sn["step"]]] = sn
+    for si in range(len(sc.steps)):
+        for c, addr in itr.peers[si]:
+            addr2conn[addr] = c
+        if sc.steps[si][0] != "quiesce" or si not in snaps or si not in mtr.images:
+            continue
+        a = impl_image(snaps[si], addr2conn)
+        b = mtr.images[si]
+        if a != b:
+            what = "state image differs"
+            detail = {}
+            if a["peers"] != b["peers"]:
+                detail["peers"] = {"impl": a["peers"], "model": b["peers"]}
+            for kx in sorted(set(a["elems"]) | set(b["elems"])):
+                if a["elems"].get(kx) != b["elems"].get(kx):
+                    detail["elem " + kx] = {"impl": a["elems"].get(kx), "model": b["elems"].get(kx)}
+            dis.append({"step": si, "what": what, "detail": repr(detail)[:3000]})
+    return dis
 
 
 def compare(sc, itr, mtr, strict_errors=False):
@@ -523,5 +610,5 @@ def run_scenario(binary, sc, rng=None, args=(), strict_errors=False):
     mlines, opmap = model_script(sc, itr)
     ops, _ = run_model(mlines)
     mtr = ModelTrace(sc, ops, opmap)
-    dis = compare(sc, itr, mtr, strict_errors)
+    dis = compare(sc, itr, mtr, strict_errors) + compare_images(sc, itr, mtr)
     return {"res": res, "log": log, "itr": itr, "mtr": mtr, "dis": dis, "script": lines, "model_script": mlines, "smap": smap}
